@@ -10,16 +10,16 @@ FN == FM.nodes
 
 ElementKinds == {"TooLong", "TooShort", "BadCode", "BadClass", "BadDate", "BadTime", "MissingRequired", "NotUsedPresent",
                  "TooManySubElements"}
-SegmentKinds == {"TooManyElements", "SyntaxBroken", "UnknownSeg", "MissingRequiredSeg", "SegOverMax", "LoopOverMax"}
+SegmentKinds == {"TooManyElements", "SyntaxBroken", "UnknownSeg", "OutOfPlaceSeg", "MissingRequiredSeg", "SegOverMax", "LoopOverMax"}
 
 (* the standard acknowledgement code(s) that match each fault kind (AK403 for elements, AK304 for segments) *)
 AllowedCodes(kind) ==
   CASE kind = "TooLong" -> {"5"} [] kind = "TooShort" -> {"4"} [] kind = "BadCode" -> {"7"} [] kind = "BadClass" -> {"6"}
     [] kind = "BadDate" -> {"8"} [] kind = "BadTime" -> {"9"} [] kind = "MissingRequired" -> {"1"} [] kind = "NotUsedPresent" -> {"10"}
     [] kind = "TooManyElements" -> {"3"} [] kind = "TooManySubElements" -> {"3"} [] kind = "SyntaxBroken" -> {"2", "10"}
-    [] kind = "UnknownSeg" -> {"1"} [] kind = "MissingRequiredSeg" -> {"3"} [] kind = "SegOverMax" -> {"5"} [] kind = "LoopOverMax" -> {"4"}
+    [] kind = "UnknownSeg" -> {"1"} [] kind = "OutOfPlaceSeg" -> {"1", "2", "7"} [] kind = "MissingRequiredSeg" -> {"3"} [] kind = "SegOverMax" -> {"5"} [] kind = "LoopOverMax" -> {"4"}
     [] OTHER -> {}
-ErrLevel(kind) == IF kind \in {"UnknownSeg", "MissingRequiredSeg", "SegOverMax", "LoopOverMax"} THEN "seg" ELSE "ele"
+ErrLevel(kind) == IF kind \in {"UnknownSeg", "OutOfPlaceSeg", "MissingRequiredSeg", "SegOverMax", "LoopOverMax"} THEN "seg" ELSE "ele"
 
 Numeric(t) == t = "R" \/ (Len(t) >= 1 /\ SubSeq(t, 1, 1) = "N")
 HasCodes(e) == Len(e.codes) > 0 \/ e.ext # ""
@@ -42,6 +42,29 @@ IsQualifier(n, ei, ci) ==
      LET k == FN[n].quals[q].k IN
         (k = "01" /\ ei = 1 /\ ci = 0) \/ (k = "02" /\ ei = 2 /\ ci = 0) \/ (k = "03" /\ ei = 3 /\ ci = 0) \/ (k = "01-1" /\ ei = 1 /\ ci = 1)
 EnvelopeSeg(n) == FN[n].id \in {"ISA", "IEA", "GS", "GE", "ST", "SE"}
+
+(* --------------------------------------------------------------- out of place *)
+(* Which segment identifiers may FOLLOW segment node n when the map is read forward in order?  In any enclosing loop A *)
+(* (the virtual root 0 included): a later child of A - or the child the document is in, which may repeat - that is a   *)
+(* segment, or the entry segment of such a child that is a loop (its first segment; for a loop that starts with loops,  *)
+(* the entry of any of its child loops).  An identifier of the map that is NOT in ForwardIds(n) cannot be the next       *)
+(* segment after n under any reading of the map: a segment carrying it there is OUT OF PLACE (a sufficient condition,   *)
+(* deliberately by identifier only - qualifier values would only shrink the set).                                       *)
+KidSet(a) == IF a = 0 THEN {FM.rootkids[j] : j \in 1..Len(FM.rootkids)} ELSE {FN[a].kids[j] : j \in 1..Len(FN[a].kids)}
+RECURSIVE SubIds(_)
+SubIds(n) == IF FN[n].kind = "seg" THEN {FN[n].id} ELSE UNION {SubIds(k) : k \in KidSet(n)}
+RECURSIVE EntryIds(_)
+EntryIds(k) == IF FN[k].kind = "seg" THEN {FN[k].id}
+               ELSE IF Len(FN[k].kids) = 0 THEN {}
+               ELSE IF FN[FN[k].kids[1]].kind = "seg" /\ ~FN[k].wrapper THEN {FN[FN[k].kids[1]].id}
+               ELSE UNION {EntryIds(c) : c \in KidSet(k)}
+RECURSIVE FwdFrom(_)
+FwdFrom(c) == LET a == FN[c].parent
+                  here == UNION {EntryIds(k) : k \in {x \in KidSet(a) : FN[x].pos >= FN[c].pos}}
+              IN IF a = 0 THEN here ELSE here \cup FwdFrom(a)
+ForwardIds(n) == FwdFrom(n)
+MapSegIds == UNION {SubIds(k) : k \in KidSet(0)}
+Numbered == {"HL", "LX", "LS", "LE"}          \* identifiers the reader itself counts or brackets: moving one is more than one fault
 
 (* ------------------------------------------------------------------ generator *)
 (* Docs: [{segs: [{node, present: <<BOOLEAN>>, sub: <<<<BOOLEAN>>>>}]}] as the concretiser laid the conformant documents out *)
@@ -71,6 +94,15 @@ PlansAt(dd, ss) ==
      \cup {[seg |-> ss, ele |-> Len(eles) + 1, sub |-> 0, kind |-> "TooManyElements", local |-> TRUE]}
      \cup {[seg |-> ss, ele |-> 0, sub |-> j, kind |-> "SyntaxBroken", local |-> TRUE] : j \in 1..Len(FN[n].syntax)}
      \cup {[seg |-> ss, ele |-> 0, sub |-> 0, kind |-> "UnknownSeg", local |-> FALSE]}
+     \* a copy of the nearest earlier body segment of the same set whose identifier cannot occur from here on (sub carries its index)
+     \cup (LET st == CHOOSE x \in 0..ss : (x = 0 \/ FN[Docs[dd].segs[x].node].id = "ST")
+                                          /\ \A y \in (x + 1)..ss : FN[Docs[dd].segs[y].node].id # "ST"
+               fwd == ForwardIds(n)
+               cand == {x \in (st + 1)..(ss - 1) : LET sid == FN[Docs[dd].segs[x].node].id IN
+                                                      sid \notin fwd /\ sid \notin Numbered /\ ~EnvelopeSeg(Docs[dd].segs[x].node)}
+               inset == \A y \in (st + 1)..ss : FN[Docs[dd].segs[y].node].id # "SE"      \* between ST and SE: a fault after SE / GE lies in no set
+           IN IF st = 0 \/ ~inset \/ cand = {} THEN {}
+              ELSE {[seg |-> ss, ele |-> 0, sub |-> CHOOSE x \in cand : \A y \in cand : y <= x, kind |-> "OutOfPlaceSeg", local |-> TRUE]})
      \cup (IF FN[n].usage = "R" /\ FN[FN[n].parent].kids[1] # n
            THEN {[seg |-> ss, ele |-> 0, sub |-> 0, kind |-> "MissingRequiredSeg", local |-> FALSE]} ELSE {})
      \cup (IF FN[n].rep > 0 /\ FN[n].rep <= 12 /\ FN[FN[n].parent].kids[1] # n
